@@ -372,8 +372,8 @@ PUSHI = "src/deep/push/__init__.py"
 GSVC = "src/deep/grpc/grpc_service.py"
 POLLF = "src/deep/poll/poll.py"
 M("c08-tuple-unhandled", "C08", "C08.TYPES", (GRPC, "    if isinstance(value, (list, tuple)):", "    if isinstance(value, list):"))
-M("c08-int-before-bool", "C08", "C08.TYPES", (GRPC, "    if isinstance(value, bool):\n        return AnyValue(bool_value=value)\n    if isinstance(value, str):\n        return AnyValue(string_value=value)\n    if isinstance(value, int):\n        return AnyValue(int_value=value)\n",
-                                                "    if isinstance(value, int):\n        return AnyValue(int_value=value)\n    if isinstance(value, bool):\n        return AnyValue(bool_value=value)\n    if isinstance(value, str):\n        return AnyValue(string_value=value)\n"))
+M("c08-int-before-bool", "C08", "C08.TYPES", (GRPC, "    if isinstance(value, bool):\n        return AnyValue(bool_value=value)\n", ""),
+  (GRPC, "    if isinstance(value, float):\n", "    if isinstance(value, bool):\n        return AnyValue(bool_value=value)\n    if isinstance(value, float):\n"))
 M("c08-float-as-int", "C08", "C08.TYPES", (GRPC, "        return AnyValue(double_value=value)", "        return AnyValue(int_value=value)"))
 M("c08-truncated-dropped", "C08", "C08.SCHEMA", (PUSHI, "children=[__convert_variable_id(c) for c in variable.children], truncated=variable.truncated)", "children=[__convert_variable_id(c) for c in variable.children])"))
 M("c08-method-file-swapped", "C08", "C08.SCHEMA", (PUSHI, "StackFrame(file_name=frame.file_name, short_path=frame.short_path, method_name=frame.method_name,", "StackFrame(file_name=frame.method_name, short_path=frame.short_path, method_name=frame.file_name,"))
@@ -661,3 +661,28 @@ M("c08-watch-failure-text-unsanitised", "C08", "C08.TEXT", (ACTX, "             
 R("c06-watch-failure-text-inline", "C06", (ACTX, "                error = safe_str(result)\n                return WatchResult(source, watch, None, error), {}, error\n",
                                             "                return WatchResult(source, watch, None, safe_str(result)), {}, safe_str(result)\n"))
 M("c06-dict-key-name-unsanitised", "C06", "C06.TEXT", (VPROC, "NodeValue(func(type_name, safe_str(key)), value[key], safe_str(key))", "NodeValue(func(type_name, str(key)), value[key], safe_str(key))"))
+
+# ------------------------------------------------------------------ C08.TYPES: what the store holds fits the wire type
+M("c08-text-sent-unsanitised", "C08", "C08.TYPES", (GRPC, "AnyValue(string_value=value.encode('utf-8', 'backslashreplace').decode('utf-8'))", "AnyValue(string_value=value)"))
+M("c08-int-range-not-tested", "C08", "C08.TYPES", (GRPC, "        if -2 ** 63 <= value < 2 ** 63:\n            return AnyValue(int_value=value)\n", "        if value is not None:\n            return AnyValue(int_value=value)\n"))
+M("c08-none-element-in-array", "C08", "C08.TYPES", (GRPC, "ArrayValue(values=[__element(val) for val in value])", "ArrayValue(values=[convert_value(val) for val in value])"))
+R("c08-int-range-by-bit-length", "C08", (GRPC, "        if -2 ** 63 <= value < 2 ** 63:\n", "        if value.bit_length() < 64:\n"))
+R("c08-element-inline", "C08", (GRPC, "ArrayValue(values=[__element(val) for val in value])", "ArrayValue(values=[convert_value(val) or AnyValue() for val in value])"))
+
+# ------------------------------------------------------------------ round-6 rules
+M("c01-truth-test-of-host-self", "C01", "C01.R3", ("src/deep/processor/frame_collector.py", "        if _self is not None:\n", "        if _self:\n"))
+M("c04-falsy-limit-gets-default", "C04", "C04.INT", (TRG, "            return int(self.__config.get(name, default_value))\n", "            return int(self.__config.get(name) or default_value)\n"))
+M("c07-id-picked-from-possibly-empty-list", "C07", "C07.OPTIONAL",
+  ("src/deep/processor/variable_set_processor.py", "        var_id = self.__var_cache.check_id(identity_hash_id)\n\n        return VariableId(var_id, name), safe_str(value)",
+   "        return VariableId(var_ids[0].vid, name), safe_str(value)"))
+M("c10-condition-text-rewritten", "C10", "C10.SCOPE", (TRG, "        self.__condition = condition\n", "        self.__condition = ' '.join(condition.split()) if condition else condition\n"))
+M("c12-timer-interval-truncated", "C12", "C12.LOOP", ("src/deep/utils.py", "        self.interval = interval\n", "        self.interval = int(interval)\n"))
+R("c12-timer-interval-as-float", "C12", ("src/deep/utils.py", "        self.interval = interval\n", "        self.interval = float(interval)\n"))
+M("c14-poll-thread-joined-with-timeout", "C14", "C14.E", ("src/deep/utils.py", "        self.thread.join()\n", "        self.thread.join(self.interval)\n"))
+M("c15-pending-stack-bounded", "C15", "C15.ONCE", (TH, "ThreadLocal(lambda: deque())", "ThreadLocal(lambda: deque(maxlen=64))"))
+M("c13-handle-from-application-rng", "C13", "C13.HANDLE", (CFGS, "        tp_id = str(uuid.uuid4())\n", "        import random\n        tp_id = str(uuid.UUID(int=random.getrandbits(128), version=4))\n"))
+M("c18-env-value-plus-decoded", "C18", "C18.CHAIN", (RESF, "parse.unquote(value.strip())", "parse.unquote_plus(value.strip())"))
+M("c20-switch-key-rewritten", "C20", "C20.LOAD", (PLUG, "        attr = getattr(self.config, f'plugin_{self.name}'.upper(), 'True')\n",
+                                                  "        attr = getattr(self.config, f'plugin_{self.name}'.upper().replace('-', '_'), 'True')\n"))
+R("c20-switch-key-concatenated", "C20", (PLUG, "        attr = getattr(self.config, f'plugin_{self.name}'.upper(), 'True')\n",
+                                          "        attr = getattr(self.config, ('plugin_' + self.name).upper(), 'True')\n"))
